@@ -172,7 +172,12 @@ class BufferedReader:
                     yield self._buffer[:pos]
                 return
 
-        yield self._buffer
+        # NOTE: The source ended before the delimiter was found. Mark what is
+        #   left in the buffer as consumed before handing it out; otherwise
+        #   the same bytes would be delivered again by the next operation.
+        buffer_pos = self._buffer_pos
+        self._buffer_pos = self._buffer_len
+        yield self._buffer[buffer_pos:]
 
     async def _consume_delimiter(self, delimiter: bytes) -> None:
         delimiter_len = len(delimiter)
